@@ -29,6 +29,11 @@ func genHCase(t *rapid.T) HCase {
 	if h.N > 4096 {
 		h.LimitN(4096) // keeps the two-GPU timing run affordable
 	}
+	if h.N >= 1024 && rapid.IntRange(0, 3).Draw(t, "onemoregroup") == 0 {
+		// 65 work-groups: one more than the first of two 64-unit GPUs gets when a unified device
+		// splits a launch - the last group is then the whole share of the second GPU
+		h.N = 4160
+	}
 	return HCase{H: h}
 }
 
